@@ -628,6 +628,13 @@ func (tm *TileMatrix) UnmarshalJSONFromMap(data interface{}) error {
 		return fmt.Errorf(`data is not a map but a %T`, data)
 	}
 
+	for _, key := range []string{"tileWidth", "tileHeight", "matrixWidth", "matrixHeight"} {
+		// (a negative or too large number would silently wrap around when converted to uint)
+		if size, isNumber := dataMap[key].(float64); isNumber && (size < 0 || size > math.MaxUint32 || size != math.Trunc(size)) {
+			return fmt.Errorf(`%v should be a (not too large) positive integer, not %v`, key, size)
+		}
+	}
+
 	_, err = marshmallow.UnmarshalFromJSONMap(dataMap, tm, marshmallow.WithExcludeKnownFieldsFromMap(true))
 	if err != nil {
 		return err
